@@ -177,6 +177,20 @@ Proof.
   destruct (delete _ _); ring_ev.
 Qed.
 
+Lemma vi_op_ev s op reg m arg : ring_evolves (sring s) (sring (snd (vi_op s op reg m arg))).
+Proof.
+  unfold vi_op. destruct (motion_obj _ _ _) as [[start oty]|]; [|ring_ev].
+  destruct (_ && _); [ring_ev|]. destruct (_ && _); [ring_ev|].
+  destruct (tobj_cut _ _ _ _) as [[nd data]|]; [|ring_ev].
+  destruct nd as [[t c]|]; [|ring_ev].
+  destruct (op =? 1).
+  - destruct (match ctext data with [] => false | _ => true end);
+      [destruct (0 <=? reg); [destruct (is_register_name reg)|]|]; ring_ev.
+  - destruct (op =? 2); [rewrite vi_escape_ring|];
+    (destruct (match ctext data with [] => false | _ => true end);
+      [destruct (0 <=? reg); [destruct (is_register_name reg)|]|]; ring_ev).
+Qed.
+
 Lemma exec_ev s c arg rep : ring_evolves (sring s) (sring (snd (exec s c arg rep))).
 Proof.
   destruct c; cbn [exec];
@@ -184,7 +198,7 @@ Proof.
         | apply yank_ev | apply yank_pop_ev | apply set_mark_ev | apply self_insert_ev
         | apply region_cmd_ev | apply vi_x_ev | apply vi_X_ev | apply vi_dd_ev
         | apply vi_paste_reg_ev | apply vi_visual_ev | apply kill_with_ev
-        | apply vi_subst_ev | apply vi_bigC_ev | apply vi_bigS_ev
+        | apply vi_subst_ev | apply vi_bigC_ev | apply vi_bigS_ev | apply vi_op_ev
         | (rewrite buf_paste_ev; apply ev_refl)
         | (destruct (has_sel s); [apply region_cmd_ev|apply rubout_ev])
         | ring_ev ].
